@@ -128,6 +128,11 @@ def c13_cleanup(v, ctx, tftpd, T=1):
             time.sleep(6 * T + 1.5)
         s.close()
         path = os.path.join(sb["srv"], name)
+        if not keep:
+            # the worker removes the file when it gives up; on a loaded machine that can be later than planned
+            end = time.time() + 10.0
+            while os.path.exists(path) and time.time() < end:
+                time.sleep(0.25)
         data = open(path, "rb").read() if os.path.exists(path) else None
         return p, name, content, data, ""
 
@@ -277,7 +282,12 @@ def c16(v, tier):
         sb = ctx.sandbox("c16v")
         srv = N.Server(bins["tftpd"], sb["srv"], dup=n, logdir=sb["logs"])
         srv.start(wait=False)
-        time.sleep(0.4)
+        if should_start:
+            srv.wait_ready(10.0)
+        else:
+            end = time.time() + 8.0
+            while srv.alive() and time.time() < end:
+                time.sleep(0.05)
         alive = srv.alive()
         status = srv.exit_status()
         srv.stop()
